@@ -16,6 +16,9 @@ extern "C" {
     /// Preset the calling (simulated) thread's helping-generation counter. In the IR build the
     /// engine writes the TLS cell (located by calibration); natively it calls the cfg-guarded hook.
     pub fn verif_set_generation(v: u64);
+    /// Join point for the symbolic execution: paths that reach the same call are merged into one
+    /// state (values become if-then-else terms over the path conditions). No-op natively.
+    pub fn verif_merge();
 }
 extern "C-unwind" {
     /// A panic raised by *user* code (closure, Drop, Clone supplied by the harness).
@@ -41,6 +44,10 @@ pub fn cover(id: u32) {
 #[inline(always)]
 pub fn mark(id: u32, v: u64) {
     unsafe { verif_mark(id, v) }
+}
+#[inline(always)]
+pub fn merge() {
+    unsafe { verif_merge() }
 }
 #[inline(always)]
 pub fn set_generation(v: u64) {
